@@ -853,6 +853,7 @@ class MasterDriver:
         """An operator command is several ZooKeeper requests; the master's watches may fire between any two of them.
         Now and then the master handles what is pending right before the next write of the operator."""
         if (client is not self.admin or op not in ('create', 'set', 'delete') or self.master is None or self.interleaving
+                or getattr(self, 'master_died', None)
                 or self.cutter is not None and getattr(self.cutter, 'armed', False)):
             return
         if self.rng.random() >= 0.06:
@@ -861,6 +862,14 @@ class MasterDriver:
         try:
             if self.deliver():
                 self.mon.count('deliveries_between_operator_writes')
+        except zkfake.Crash:
+            raise
+        except Exception as err:       # pylint: disable=broad-except
+            # the master process dies on what it found half-way through the operator's command (e.g. KeyError in
+            # set_server_valid_until for a server whose record is already gone): a robustness matter outside the twenty
+            # properties - its successor would load a consistent state; the history ends here without a verdict
+            self.master_died = '%s: %s' % (type(err).__name__, err)
+            self.mon.count('master_died_between_operator_writes:%s' % type(err).__name__)
         finally:
             self.interleaving = False
 
